@@ -133,6 +133,7 @@ func propC05(w *World, r *Report) {
 	checkStackCtl(w, r)
 	checkStemSem(w, r)
 	checkMoveState(w, r, fn)
+	checkMalformed(w, r, br, fn)
 
 	// ---- safety of the interpreter (shared with C02)
 	var fns []*ssa.Function
